@@ -495,6 +495,24 @@ func runEnvelope(mediaType string, b []byte) (out implEnvOut) {
 	} else {
 		out.VerifyErr = errClass(err)
 	}
+	// the other call order on a second object parsed from the same bytes: Content, Verify, Verify.  Verification
+	// must not depend on what was called before it; if any of the calls accepts, that acceptance is what is reported.
+	if env2, err := signature.ParseEnvelope(mediaType, b); err == nil {
+		env2.Content()
+		for i := 0; i < 2; i++ {
+			if c, err := env2.Verify(); err == nil && c != nil {
+				t, _ := contentTerm(c)
+				if out.Verify == "None" {
+					out.Verify = "(Some " + t + ")"
+					out.VerifyErr = "accepted only after Content() had been called"
+				} else if out.Verify != "(Some "+t+")" {
+					out.Panicked, out.PanicMsg = true, "Verify() returned different content on a second object parsed from the same bytes"
+				}
+			} else if out.Verify != "None" && out.VerifyErr == "" {
+				out.Panicked, out.PanicMsg = true, "Verify() succeeded on one object and failed on another parsed from the same bytes: "+errClass(err)
+			}
+		}
+	}
 	if c, err := env.Content(); err == nil && c != nil {
 		t, _ := contentTerm(c)
 		out.Content = "(Some " + t + ")"
